@@ -224,11 +224,32 @@ ovni_proc_set_rank(int rank, int nranks)
 static void
 mkdir_proc(char *path, const char *tracedir, const char *loom, int pid)
 {
-	snprintf(path, PATH_MAX, "%s/loom.%s/proc.%d/", tracedir, loom, pid);
+	if (snprintf(path, PATH_MAX, "%s/loom.%s/proc.%d/", tracedir, loom, pid) >= PATH_MAX)
+		die("path too long: %s/loom.%s/proc.%d/", tracedir, loom, pid);
 
 	/* But this one shall not fail */
 	if (mkpath(path, 0755, /* subdir */ 1))
 		die("mkdir %s failed:", path);
+}
+
+/* Relative trace directories are resolved once, when the process is
+ * initialized: the program may change its working directory later, and
+ * every path below is used again when threads start and finish. */
+static void
+absolute_path(char *dst, const char *path)
+{
+	if (path[0] == '/') {
+		if (snprintf(dst, PATH_MAX, "%s", path) >= PATH_MAX)
+			die("path too long: %s", path);
+		return;
+	}
+
+	char cwd[PATH_MAX];
+	if (getcwd(cwd, PATH_MAX) == NULL)
+		die("getcwd failed:");
+
+	if (snprintf(dst, PATH_MAX, "%s/%s", cwd, path) >= PATH_MAX)
+		die("path too long: %s/%s", cwd, path);
 }
 
 static void
@@ -236,15 +257,25 @@ create_proc_dir(const char *loom, int pid)
 {
 	char *tmpdir = getenv("OVNI_TMPDIR");
 	char *tracedir = getenv("OVNI_TRACEDIR");
+	char abs_tmpdir[PATH_MAX];
+	char abs_tracedir[PATH_MAX];
 
 	/* Use default tracedir if user did not request any */
 	if (tracedir == NULL)
 		tracedir = OVNI_TRACEDIR;
 
-	if (snprintf(rproc.loomdir, PATH_MAX, "%s/loom.%s", tmpdir, loom) >= PATH_MAX)
-		die("loom path too long: %s/loom.%s", tmpdir, loom);
+	absolute_path(abs_tracedir, tracedir);
+	tracedir = abs_tracedir;
 
 	if (tmpdir != NULL) {
+		absolute_path(abs_tmpdir, tmpdir);
+		tmpdir = abs_tmpdir;
+	}
+
+	if (tmpdir != NULL) {
+		if (snprintf(rproc.loomdir, PATH_MAX, "%s/loom.%s", tmpdir, loom) >= PATH_MAX)
+			die("loom path too long: %s/loom.%s", tmpdir, loom);
+
 		if (snprintf(rproc.tmpdir, PATH_MAX, "%s", tmpdir) >= PATH_MAX)
 			die("tmpdir path too long: %s", tmpdir);
 		rproc.move_to_final = 1;
